@@ -411,25 +411,40 @@ func genDeclTok(v *value) (token.Token, bool) {
 	return 0, false
 }
 
-var basicLitPtrType = reflect.TypeOf((*ast.BasicLit)(nil))
+var (
+	basicLitPtrType   = reflect.TypeOf((*ast.BasicLit)(nil))
+	identPtrType      = reflect.TypeOf((*ast.Ident)(nil))
+	importSpecPtrType = reflect.TypeOf((*ast.ImportSpec)(nil))
+)
 
-// importPaths reports the paths imported by the declaration if v is a
-// snapshot of an import declaration.
+// importPaths reports the imports of the declaration, each as its name (if
+// it has one) followed by its path, if v is a snapshot of an import
+// declaration.
 func importPaths(v *value) ([]string, bool) {
 	if tok, ok := genDeclTok(v); !ok || tok != token.IMPORT {
 		return nil, false
 	}
 
-	var paths []string
-	var collect func(*value)
+	var (
+		imports []string
+		inSpec  bool
+		collect func(*value)
+	)
 	collect = func(v *value) {
 		if v == nil || v.IsNil() {
 			return
 		}
-		if v.Type() == basicLitPtrType && v.Elem != nil {
+		switch {
+		case v.Type() == importSpecPtrType && !inSpec:
+			// The name and the path of one import are one entry: 'myos
+			// "os"' is not the import that 'import "os"' declares.
+			imports = append(imports, "")
+			inSpec = true
+			defer func() { inSpec = false }()
+		case inSpec && v.Elem != nil && (v.Type() == basicLitPtrType || v.Type() == identPtrType):
 			for _, c := range v.Elem.Children {
 				if s, ok := c.Interface().(string); ok {
-					paths = append(paths, s)
+					imports[len(imports)-1] += " " + s
 				}
 			}
 			return
@@ -440,7 +455,7 @@ func importPaths(v *value) ([]string, bool) {
 		}
 	}
 	collect(v)
-	return paths, true
+	return imports, true
 }
 
 func intersects(xs, ys []string) bool {
